@@ -115,9 +115,10 @@ enum
     LR_ONE_REAL,
     LR_Q_POSITIVE,
     LR_ALL_ZERO,
-    LR_NO_SOLUTION
+    LR_NO_SOLUTION,
+    LR_TRIPLE_ROOT
 };
-#define C17_RT_LABELS "two_real_roots", "complex_pair", "double_root", "leading_coefficient_zero", "root_ratio_gt_10", "integer_coefficients", "three_real_roots", "one_real_root", "one_real_root_q_positive", "all_coefficients_zero", "no_solution"
+#define C17_RT_LABELS "two_real_roots", "complex_pair", "double_root", "leading_coefficient_zero", "root_ratio_gt_10", "integer_coefficients", "three_real_roots", "one_real_root", "one_real_root_q_positive", "all_coefficients_zero", "no_solution", "triple_root"
 
 // --- linear
 template <class T> static void linear_case (vp::Ctx& c, const char* tn)
@@ -296,7 +297,42 @@ template <class T> static void cubic_case (vp::Ctx& c, const char* tn, bool norm
 {
     vp::Src&   s   = c.s;
     const quad eps = FInfo<T>::eps ();
-    int        pat = (int) s.below (6);
+    int        pat = (int) s.below (7);
+    if (pat == 6)
+    {
+        // multiple roots that are decided exactly: a(x-k)^3 and a(x-m)^2(x+2m) with small integers k, m and a = +-2^j.
+        // Every intermediate of the solver (p, q, p3^3, q2^2, D) is then an exactly representable integer, so D == 0
+        // and (for the cube) p == 0 hold exactly: the counts must be 1 and 2.
+        int  lim    = sizeof (T) == 4 ? 15 : 40;
+        int  m      = (int) s.range (1, lim) * (s.coin () ? 1 : -1);
+        bool triple = s.coin ();
+        T    a      = normalized ? (T) 1 : std::ldexp ((T) 1, (int) s.range (-2, 2)) * (s.coin () ? (T) 1 : (T) -1);
+        T    M      = (T) m;
+        T    B      = triple ? a * (-3 * M) : (T) 0, C = triple ? a * (3 * M * M) : a * (-3 * M * M), D = triple ? a * (-M * M * M) : a * (2 * M * M * M);
+        T    x[3]   = { (T) 777, (T) 888, (T) 999 };
+        int  n      = normalized ? IM::solveNormalizedCubic (B, C, D, x) : IM::solveCubic (a, B, C, D, x);
+        VP_NOTE (c, tn << (normalized ? " solveNormalizedCubic" : " solveCubic") << (triple ? " a(x-k)^3 k=" : " a(x-m)^2(x+2m) m=") << m << " a=" << a);
+        if (triple)
+        {
+            c.label (LR_TRIPLE_ROOT);
+            VP_REQUIRE (c, n == 1, "cubic-count-triple-root", tn << " cubic " << a << "(x-" << m << ")^3 returned " << n << " roots, expected 1");
+            VP_REQUIRE (c, x[0] == M, "cubic-triple-root", tn << " cubic " << a << "(x-" << m << ")^3 root " << x[0]);
+        }
+        else
+        {
+            c.label (LR_DOUBLE_ROOT);
+            VP_REQUIRE (c, n == 2, "cubic-count-double-root", tn << " cubic " << a << "(x-" << m << ")^2(x+" << 2 * m << ") returned " << n << " roots, expected 2");
+            quad wr2[2] = { (quad) m, (quad) (-2 * m) }, tol2[2];
+            tol2[0] = tol2[1] = 16 * eps * qabs ((quad) m);
+            int    bad;
+            double r2 = match_roots<T> (x, 2, wr2, tol2, &bad);
+            c17_measure (sizeof (T) == 4 ? "cubic-float-double-root" : "cubic-double-double-root", r2 * 16);
+            // measured worst on the unchanged tree: 1.33 (float), 1.94 (double) eps*|m|; limit 16
+            VP_REQUIRE (c, r2 <= 1.0, "cubic-double-root", tn << " cubic " << a << "(x-" << m << ")^2(x+" << 2 * m << ") = {" << x[0] << "," << x[1] << "} misses " << (double) wr2[bad] << " by " << r2 * 16 << " eps*|m| (limit 16)");
+        }
+        c.nt ();
+        return;
+    }
     quad       sc  = (quad) std::ldexp (1.0, (int) s.range (-RootLim<T>::kmax (), RootLim<T>::kmax ()));
     quad       lead = normalized ? (quad) 1 : (quad) gen::nice_nz<T> (s) * (quad) std::ldexp (1.0, (int) s.range (-4, 4));
     T          A, B, C, D;
@@ -446,16 +482,16 @@ VP_RANDOM (roots_quadratic_double, 600000, 12000000, C17_QUAD_RULE)
 VP_LABELS (roots_quadratic_double, C17_RT_LABELS)
 VP_REQUIRE_LABELS (roots_quadratic_double, "two_real_roots", "complex_pair", "double_root", "leading_coefficient_zero", "root_ratio_gt_10", "integer_coefficients", "all_coefficients_zero", "no_solution")
 
-#define C17_CUBIC_RULE "cubics a(x-r1)(x-r2)(x-r3) or a(x-r)((x-re)^2+im^2) built in quad and rounded: three real roots with gaps >= max|r|/3 at scale 2^k; one root 2^4..2^36 smaller; one real root plus complex pair with |im| >= max/2 (count 1), with re tied to r to spread the sign of the depressed q; dyadic roots k/16 (coefficients exact); a == 0 (solveCubic only: bit-identical to solveQuadratic).  solveNormalizedCubic is called on (b,c,d) with a = 1, solveCubic on (a,b,c,d).  Reference = Newton in quad on the rounded polynomial; count = number of distinct real roots; each root within 32 eps * kL, kL = |a| sum L^(3-i)|x|^i / |p'(x)| the condition number for coefficient perturbations at the root scale L = max |root| (Cardano's u+v-r/3 carries eps*L).  Failures in the one-real-root branch with depressed q > 0 (u = cbrt(-q/2+sqrt(D)) cancels) carry their own key; non-trivial = always"
+#define C17_CUBIC_RULE "cubics a(x-r1)(x-r2)(x-r3) or a(x-r)((x-re)^2+im^2) built in quad and rounded: three real roots with gaps >= max|r|/3 at scale 2^k; one root 2^4..2^36 smaller; one real root plus complex pair with |im| >= max/2 (count 1), with re tied to r to spread the sign of the depressed q; dyadic roots k/16 (coefficients exact); a == 0 (solveCubic only: bit-identical to solveQuadratic); a(x-k)^3 and a(x-m)^2(x+2m) with small integers and a = +-2^j, where D == 0 holds exactly (counts 1 and 2, roots within 16 eps |m|).  solveNormalizedCubic is called on (b,c,d) with a = 1, solveCubic on (a,b,c,d).  Reference = Newton in quad on the rounded polynomial; count = number of distinct real roots; each root within 32 eps * kL, kL = |a| sum L^(3-i)|x|^i / |p'(x)| the condition number for coefficient perturbations at the root scale L = max |root| (Cardano's u+v-r/3 carries eps*L).  Failures in the one-real-root branch with depressed q > 0 (u = cbrt(-q/2+sqrt(D)) cancels) carry their own key; non-trivial = always"
 VP_RANDOM (roots_cubic_float, 400000, 8000000, C17_CUBIC_RULE)
 {
     cubic_case<float> (c, "float", c.s.coin ());
 }
 VP_LABELS (roots_cubic_float, C17_RT_LABELS)
-VP_REQUIRE_LABELS (roots_cubic_float, "three_real_roots", "one_real_root", "one_real_root_q_positive", "leading_coefficient_zero", "root_ratio_gt_10", "integer_coefficients")
+VP_REQUIRE_LABELS (roots_cubic_float, "three_real_roots", "one_real_root", "one_real_root_q_positive", "leading_coefficient_zero", "root_ratio_gt_10", "integer_coefficients", "double_root", "triple_root")
 VP_RANDOM (roots_cubic_double, 400000, 8000000, C17_CUBIC_RULE)
 {
     cubic_case<double> (c, "double", c.s.coin ());
 }
 VP_LABELS (roots_cubic_double, C17_RT_LABELS)
-VP_REQUIRE_LABELS (roots_cubic_double, "three_real_roots", "one_real_root", "one_real_root_q_positive", "leading_coefficient_zero", "root_ratio_gt_10", "integer_coefficients")
+VP_REQUIRE_LABELS (roots_cubic_double, "three_real_roots", "one_real_root", "one_real_root_q_positive", "leading_coefficient_zero", "root_ratio_gt_10", "integer_coefficients", "double_root", "triple_root")
